@@ -29,149 +29,157 @@ def check(R):
     F = R.facts
     groups = 'groups' in (F.hdr.get('features') or '')
     # ---- a --------------------------------------------------------------------
-    pr = R.body(SESS + '::post_recv')
-    g = lambda: R.call_guard(pr, RX + '::post_recv')
-    for nm in (SESS + '::get_exch_for_rx', SESS + '::add_exch', 'transport::exchange::ExchangeState::post_recv'):
-        R.cut('P2', pr, nm.split('::')[-2] + '::' + nm.split('::')[-1], call_bbs(pr, nm), 'RxCtrState::post_recv == true', g)
-    R.cut('P2', pr, 'return Ok', ok_return_bbs(pr), 'RxCtrState::post_recv == true', g)
-    t = pr.calls(RX + '::post_recv')[0]
-    a = t.d['a']
-    s_state = prims.sources(pr, a[0])
-    s_ctr = prims.sources(pr, a[1])
-    s_enc = prims.sources(pr, a[2])
-    R.expect('P10', pr.fn, 'the window consulted is this session\'s rx_ctr_state with the header counter',
-             mentions(s_state, 'rx_ctr_state') and mentions(s_ctr, 'ctr') and mentions(s_ctr, 'plain'), 'rx_ctr_state.post_recv(rx_header.plain.ctr, ..)',
-             f'state {sorted(map(str, s_state))[:4]} ctr {sorted(map(str, s_ctr))[:4]}', pr.where(t.bb))
-    R.expect('P6', pr.fn, 'unicast mode: encrypted <= self.is_encrypted(), rollover = false',
-             SESS + '::is_encrypted' in src_calls(s_enc) and a[3].get('k', {}).get('v') == 0, 'post_recv(ctr, self.is_encrypted(), false)',
-             f'enc {sorted(map(str, s_enc))[:4]} rollover {a[3]}', pr.where(t.bb))
+    with R.clause('a'):
+        pass
+        pr = R.body(SESS + '::post_recv')
+        g = lambda: R.call_guard(pr, RX + '::post_recv')
+        for nm in (SESS + '::get_exch_for_rx', SESS + '::add_exch', 'transport::exchange::ExchangeState::post_recv'):
+            R.cut('P2', pr, nm.split('::')[-2] + '::' + nm.split('::')[-1], call_bbs(pr, nm), 'RxCtrState::post_recv == true', g)
+        R.cut('P2', pr, 'return Ok', ok_return_bbs(pr), 'RxCtrState::post_recv == true', g)
+        t = pr.calls(RX + '::post_recv')[0]
+        a = t.d['a']
+        s_state = prims.sources(pr, a[0])
+        s_ctr = prims.sources(pr, a[1])
+        s_enc = prims.sources(pr, a[2])
+        R.expect('P10', pr.fn, 'the window consulted is this session\'s rx_ctr_state with the header counter',
+                 mentions(s_state, 'rx_ctr_state') and mentions(s_ctr, 'ctr') and mentions(s_ctr, 'plain'), 'rx_ctr_state.post_recv(rx_header.plain.ctr, ..)',
+                 f'state {sorted(map(str, s_state))[:4]} ctr {sorted(map(str, s_ctr))[:4]}', pr.where(t.bb))
+        R.expect('P6', pr.fn, 'unicast mode: encrypted <= self.is_encrypted(), rollover = false',
+                 SESS + '::is_encrypted' in src_calls(s_enc) and a[3].get('k', {}).get('v') == 0, 'post_recv(ctr, self.is_encrypted(), false)',
+                 f'enc {sorted(map(str, s_enc))[:4]} rollover {a[3]}', pr.where(t.bb))
 
     # ---- b --------------------------------------------------------------------
-    if groups:
-        gr = R.body('transport::session::Sessions::get_or_create_for_group_rx')
-        gk = named_local(gr, 'group_key_found')
-        okor = [t for t in gr.calls('core::option::Option::ok_or') if (op_place(t.d['a'][0]) or [None])[0] in gk
-                or any(x in gk for x in _locals_of(prims, gr, t.d['a'][0]))]
-        R.floor('group_key_found.ok_or(..)', len(okor), 1)
-        gsome = lambda: R.call_guard(gr, 'core::option::Option::ok_or', pick=lambda t: t.bb in {o.bb for o in okor})
-        R.cut('P2', gr, 'GroupCtrStore::post_recv', call_bbs(gr, 'transport::dedup::GroupCtrStore::post_recv'), 'an operational key authenticated the message', gsome)
-        def ctr_or_control():
-            e = R.call_guard(gr, 'transport::dedup::GroupCtrStore::post_recv')
-            for l in named_local(gr, 'is_control'):
-                e |= prims.bool_local_edges(gr, l)[0]
-            return e
-        R.cut('P2', gr, 'create the group session', call_bbs(gr, 'transport::session::Sessions::add'),
-              'GroupCtrStore::post_recv == true (or control message)', ctr_or_control)
-        somes = agg_flowing_to(gr, gk, 'Some')
-        R.floor('group_key_found = Some(..)', len(somes), 1)
-        R.cut('P2', gr, 'group_key_found = Some(..)', somes, 'try_group_decrypt returned Some',
-              lambda: R.call_guard(gr, 'transport::session::Sessions::try_group_decrypt'))
-        tg = R.body('transport::session::Sessions::try_group_decrypt')
-        somes = ok_return_bbs(tg, 'Some', 'core::option::Option')
-        R.floor('Some returns of try_group_decrypt', len(somes), 1)
-        decs = [c for c in tg.calls_summary if 'decode_remaining' in c or 'decrypt' in c]
-        R.floor('decode call in try_group_decrypt', len(decs), 1)
-        R.cut('P2', tg, 'return Some(range)', somes, 'decrypt/decode ok', lambda: R.call_guard(tg, *decs))
-        gs = R.body('transport::dedup::GroupCtrStore::post_recv')
-        calls = gs.calls(RX + '::post_recv')
-        R.floor('RxCtrState::post_recv in GroupCtrStore::post_recv', len(calls), 1)
-        for t in calls:
-            a = t.d['a']
-            R.expect('P6', gs.fn, 'group mode: encrypted = true, rollover = true', a[2].get('k', {}).get('v') == 1 and a[3].get('k', {}).get('v') == 1,
-                     'post_recv(ctr, true, true)', f'args {a[2]} {a[3]}', gs.where(t.bb))
-        R.callers_confined('P1', 'transport::dedup::GroupCtrStore::post_recv', {'transport::session::Sessions::get_or_create_for_group_rx'})
+    with R.clause('b'):
+        pass
+        if groups:
+            gr = R.body('transport::session::Sessions::get_or_create_for_group_rx')
+            gk = named_local(gr, 'group_key_found')
+            okor = [t for t in gr.calls('core::option::Option::ok_or') if (op_place(t.d['a'][0]) or [None])[0] in gk
+                    or any(x in gk for x in _locals_of(prims, gr, t.d['a'][0]))]
+            R.floor('group_key_found.ok_or(..)', len(okor), 1)
+            gsome = lambda: R.call_guard(gr, 'core::option::Option::ok_or', pick=lambda t: t.bb in {o.bb for o in okor})
+            R.cut('P2', gr, 'GroupCtrStore::post_recv', call_bbs(gr, 'transport::dedup::GroupCtrStore::post_recv'), 'an operational key authenticated the message', gsome)
+            def ctr_or_control():
+                e = R.call_guard(gr, 'transport::dedup::GroupCtrStore::post_recv')
+                for l in named_local(gr, 'is_control'):
+                    e |= prims.bool_local_edges(gr, l)[0]
+                return e
+            R.cut('P2', gr, 'create the group session', call_bbs(gr, 'transport::session::Sessions::add'),
+                  'GroupCtrStore::post_recv == true (or control message)', ctr_or_control)
+            somes = agg_flowing_to(gr, gk, 'Some')
+            R.floor('group_key_found = Some(..)', len(somes), 1)
+            R.cut('P2', gr, 'group_key_found = Some(..)', somes, 'try_group_decrypt returned Some',
+                  lambda: R.call_guard(gr, 'transport::session::Sessions::try_group_decrypt'))
+            tg = R.body('transport::session::Sessions::try_group_decrypt')
+            somes = ok_return_bbs(tg, 'Some', 'core::option::Option')
+            R.floor('Some returns of try_group_decrypt', len(somes), 1)
+            decs = [c for c in tg.calls_summary if 'decode_remaining' in c or 'decrypt' in c]
+            R.floor('decode call in try_group_decrypt', len(decs), 1)
+            R.cut('P2', tg, 'return Some(range)', somes, 'decrypt/decode ok', lambda: R.call_guard(tg, *decs))
+            gs = R.body('transport::dedup::GroupCtrStore::post_recv')
+            calls = gs.calls(RX + '::post_recv')
+            R.floor('RxCtrState::post_recv in GroupCtrStore::post_recv', len(calls), 1)
+            for t in calls:
+                a = t.d['a']
+                R.expect('P6', gs.fn, 'group mode: encrypted = true, rollover = true', a[2].get('k', {}).get('v') == 1 and a[3].get('k', {}).get('v') == 1,
+                         'post_recv(ctr, true, true)', f'args {a[2]} {a[3]}', gs.where(t.bb))
+            R.callers_confined('P1', 'transport::dedup::GroupCtrStore::post_recv', {'transport::session::Sessions::get_or_create_for_group_rx'})
 
     # ---- c --------------------------------------------------------------------
-    for fld in ('max_ctr', 'ctr_bitmap'):
-        R.writers_confined('P1', f'{fld}:{RX}', {RX + '::new', RX + '::post_recv', RX + '::insert'})
-    allowed = {SESS + '::post_recv'}
-    if groups:
-        allowed.add('transport::dedup::GroupCtrStore::post_recv')
-    R.callers_confined('P1', RX + '::post_recv', allowed)
-    R.expect('P6', 'transport::dedup::MSG_RX_STATE_BITMAP_LEN', 'the receive window holds 16 counters',
-             F.const_val('transport::dedup::MSG_RX_STATE_BITMAP_LEN') == 16, '16', str(F.const_val('transport::dedup::MSG_RX_STATE_BITMAP_LEN')))
-    rp = R.body(RX + '::post_recv')
-    def is_len(x):
-        return any(y[0] == 'constp' and y[1].endswith('MSG_RX_STATE_BITMAP_LEN') for y in x)
+    with R.clause('c'):
+        pass
+        for fld in ('max_ctr', 'ctr_bitmap'):
+            R.writers_confined('P1', f'{fld}:{RX}', {RX + '::new', RX + '::post_recv', RX + '::insert'})
+        allowed = {SESS + '::post_recv'}
+        if groups:
+            allowed.add('transport::dedup::GroupCtrStore::post_recv')
+        R.callers_confined('P1', RX + '::post_recv', allowed)
+        R.expect('P6', 'transport::dedup::MSG_RX_STATE_BITMAP_LEN', 'the receive window holds 16 counters',
+                 F.const_val('transport::dedup::MSG_RX_STATE_BITMAP_LEN') == 16, '16', str(F.const_val('transport::dedup::MSG_RX_STATE_BITMAP_LEN')))
+        rp = R.body(RX + '::post_recv')
+        def is_len(x):
+            return any(y[0] == 'constp' and y[1].endswith('MSG_RX_STATE_BITMAP_LEN') for y in x)
 
-    def is_udiff(x):
-        return any(y[0] == 'call' and y[1].endswith(('abs_diff', 'wrapping_sub')) for y in x)
-    uses = [(bb, o, d) for (bb, j, o, a, b, d) in prims.compare_sites(rp) if is_len(prims.sources(rp, a) | prims.sources(rp, b))]
-    R.floor('comparisons with MSG_RX_STATE_BITMAP_LEN', len(uses), 2)
-    inwin = [u for u in uses if u[1] == 'Le']
-    R.expect('P6', rp.fn, 'in-window test is `udiff <= LEN`', len(inwin) >= 1, str([(b, o) for b, o, d in uses]), f'window comparisons are {[(b, o) for b, o, d in uses]}')
-    adt = F.adt(RX)
-    bm = [f for f in adt['variants'][0]['fields'] if f['n'] == 'ctr_bitmap'][0]
-    R.expect('P6', RX, 'bitmap type holds exactly 16 bits', bm['ty'] == 'u16', 'u16', bm['ty'])
+        def is_udiff(x):
+            return any(y[0] == 'call' and y[1].endswith(('abs_diff', 'wrapping_sub')) for y in x)
+        uses = [(bb, o, d) for (bb, j, o, a, b, d) in prims.compare_sites(rp) if is_len(prims.sources(rp, a) | prims.sources(rp, b))]
+        R.floor('comparisons with MSG_RX_STATE_BITMAP_LEN', len(uses), 2)
+        inwin = [u for u in uses if u[1] == 'Le']
+        R.expect('P6', rp.fn, 'in-window test is `udiff <= LEN`', len(inwin) >= 1, str([(b, o) for b, o, d in uses]), f'window comparisons are {[(b, o) for b, o, d in uses]}')
+        adt = F.adt(RX)
+        bm = [f for f in adt['variants'][0]['fields'] if f['n'] == 'ctr_bitmap'][0]
+        R.expect('P6', RX, 'bitmap type holds exactly 16 bits', bm['ty'] == 'u16', 'u16', bm['ty'])
 
     # ---- d --------------------------------------------------------------------
-    fwd = named_local(rp, 'is_forward')
-    te = set()
-    for l in fwd:
-        te |= prims.bool_local_edges(rp, l)[0]
-    # the advancing branch: blocks that write max_ctr
-    adv = [(i, j, s) for (i, j, s) in rp.field_writes('max_ctr:' + RX)]
-    R.floor('writes of max_ctr in post_recv', len(adv), 2)
-    enc_false = set()
-    for l in range(1, rp.argc + 1):
-        if rp.local_name(l) == 'is_encrypted':
-            enc_false |= prims.bool_local_edges(rp, l)[1]
-    const_stores = []
-    for (i, j, s) in rp.field_writes('ctr_bitmap:' + RX):
-        rv = s[1]
-        k = rv['a'][0].get('k') if rv.get('op') == 'use' else None
-        if k is not None and 'v' in k:
-            const_stores.append((i, j, k['v']))
-    # udiff > LEN edges: false edges of Le(udiff, LEN) / true edges of Gt(udiff, LEN)
-    beyond = set()
-    for bb, te_, fe_ in prims.cmp_guard_edges(rp, 'Le', is_udiff, is_len, symmetric=False):
-        beyond |= fe_
-    for bb, te_, fe_ in prims.cmp_guard_edges(rp, 'Gt', is_udiff, is_len, symmetric=False):
-        beyond |= te_
-    for bb, te_, fe_ in prims.cmp_guard_edges(rp, 'Lt', is_len, is_udiff, symmetric=False):
-        beyond |= te_
-    secure = prims.reach(rp, (0,), cut_edges=enc_false)
-    for (i, j, v) in const_stores:
-        if i not in secure:
-            R.ok('P10', rp.fn, f'constant bitmap store ({v:#x}) is on the not-encrypted restart path only', 'cut by the is_encrypted == false edge', rp.where(i, j))
-            continue
-        if bin(v).count('1') > 1:
-            R.fail('P10', rp.fn, 'window bits have a legitimate origin on secure paths',
-                   f'on a secure session, advancing the window stores the constant {v:#x} into the bitmap: counters never received are '
-                   f'marked as received, so a first-time message overtaken by a jump is rejected as duplicate', rp.where(i, j),
-                   key=f'P10|{rp.fn}|constant multi-bit bitmap store on a secure path')
-        else:
-            ok = bool(beyond) and i not in prims.reach(rp, (0,), cut_edges=beyond)
-            R.expect('P10', rp.fn, f'forgetting the window (bitmap = {v:#x}) only when the old maximum falls outside it (udiff > LEN)', ok,
-                     'cut by the udiff > MSG_RX_STATE_BITMAP_LEN edge',
-                     f'the bitmap is reset to {v:#x} on a path where udiff may equal the window length: the previous maximum is forgotten and a replay of it is accepted',
-                     rp.where(i, j))
-    if not const_stores:
-        R.ok('P10', rp.fn, 'no constant bitmap store on a secure path', 'no constant stores at all')
-    # on the forward path the bitmap is rebuilt from the old bitmap and the distance
-    fwd_writes = []
-    for (i, j, s) in rp.field_writes('ctr_bitmap:' + RX):
-        r_fw = set()
-        for (f, t) in te:
-            r_fw |= prims.reach(rp, (t,))
-        if i in r_fw and i not in prims.reach(rp, (0,), cut_edges=te):
-            fwd_writes.append((i, s))
-    dyn = [(i, s) for (i, s) in fwd_writes if not (s[1].get('op') == 'use' and 'k' in s[1]['a'][0])]
-    ok = False
-    for (i, s) in dyn:
-        srcs = set()
-        for a in s[1].get('a', ()):
-            srcs |= prims.sources(rp, a)
-        if mentions(srcs, 'ctr_bitmap') and any(rp.local_name(x) == 'udiff' for x in _slice_locals(rp, s)):
-            ok = True
-    R.expect('P10', rp.fn, 'forward path rebuilds the bitmap from the old bitmap and the distance', ok or any(rp.calls(RX + '::insert')),
-             'bitmap <= f(old bitmap, udiff)', 'no forward-path bitmap update derives from the old bitmap and udiff')
-    # every forward path that advances max_ctr also updates the bitmap
-    fwd_adv = [i for (i, j, s) in adv if i not in prims.reach(rp, (0,), cut_edges=te)]
-    R.floor('forward max_ctr write', len(fwd_adv), 1)
-    upd = {i for (i, s) in fwd_writes} | {t.bb for t in rp.calls(RX + '::insert')}
-    bad = prims.always_followed_by(rp, fwd_adv, upd)
-    R.expect('P3', rp.fn, 'advancing max_ctr is always followed by a bitmap update', not bad, 'every path updates the bitmap', f'path from {bad} returns without touching the bitmap')
+    with R.clause('d'):
+        pass
+        fwd = named_local(rp, 'is_forward')
+        te = set()
+        for l in fwd:
+            te |= prims.bool_local_edges(rp, l)[0]
+        # the advancing branch: blocks that write max_ctr
+        adv = [(i, j, s) for (i, j, s) in rp.field_writes('max_ctr:' + RX)]
+        R.floor('writes of max_ctr in post_recv', len(adv), 2)
+        enc_false = set()
+        for l in range(1, rp.argc + 1):
+            if rp.local_name(l) == 'is_encrypted':
+                enc_false |= prims.bool_local_edges(rp, l)[1]
+        const_stores = []
+        for (i, j, s) in rp.field_writes('ctr_bitmap:' + RX):
+            rv = s[1]
+            k = rv['a'][0].get('k') if rv.get('op') == 'use' else None
+            if k is not None and 'v' in k:
+                const_stores.append((i, j, k['v']))
+        # udiff > LEN edges: false edges of Le(udiff, LEN) / true edges of Gt(udiff, LEN)
+        beyond = set()
+        for bb, te_, fe_ in prims.cmp_guard_edges(rp, 'Le', is_udiff, is_len, symmetric=False):
+            beyond |= fe_
+        for bb, te_, fe_ in prims.cmp_guard_edges(rp, 'Gt', is_udiff, is_len, symmetric=False):
+            beyond |= te_
+        for bb, te_, fe_ in prims.cmp_guard_edges(rp, 'Lt', is_len, is_udiff, symmetric=False):
+            beyond |= te_
+        secure = prims.reach(rp, (0,), cut_edges=enc_false)
+        for (i, j, v) in const_stores:
+            if i not in secure:
+                R.ok('P10', rp.fn, f'constant bitmap store ({v:#x}) is on the not-encrypted restart path only', 'cut by the is_encrypted == false edge', rp.where(i, j))
+                continue
+            if bin(v).count('1') > 1:
+                R.fail('P10', rp.fn, 'window bits have a legitimate origin on secure paths',
+                       f'on a secure session, advancing the window stores the constant {v:#x} into the bitmap: counters never received are '
+                       f'marked as received, so a first-time message overtaken by a jump is rejected as duplicate', rp.where(i, j),
+                       key=f'P10|{rp.fn}|constant multi-bit bitmap store on a secure path')
+            else:
+                ok = bool(beyond) and i not in prims.reach(rp, (0,), cut_edges=beyond)
+                R.expect('P10', rp.fn, f'forgetting the window (bitmap = {v:#x}) only when the old maximum falls outside it (udiff > LEN)', ok,
+                         'cut by the udiff > MSG_RX_STATE_BITMAP_LEN edge',
+                         f'the bitmap is reset to {v:#x} on a path where udiff may equal the window length: the previous maximum is forgotten and a replay of it is accepted',
+                         rp.where(i, j))
+        if not const_stores:
+            R.ok('P10', rp.fn, 'no constant bitmap store on a secure path', 'no constant stores at all')
+        # on the forward path the bitmap is rebuilt from the old bitmap and the distance
+        fwd_writes = []
+        for (i, j, s) in rp.field_writes('ctr_bitmap:' + RX):
+            r_fw = set()
+            for (f, t) in te:
+                r_fw |= prims.reach(rp, (t,))
+            if i in r_fw and i not in prims.reach(rp, (0,), cut_edges=te):
+                fwd_writes.append((i, s))
+        dyn = [(i, s) for (i, s) in fwd_writes if not (s[1].get('op') == 'use' and 'k' in s[1]['a'][0])]
+        ok = False
+        for (i, s) in dyn:
+            srcs = set()
+            for a in s[1].get('a', ()):
+                srcs |= prims.sources(rp, a)
+            if mentions(srcs, 'ctr_bitmap') and any(rp.local_name(x) == 'udiff' for x in _slice_locals(rp, s)):
+                ok = True
+        R.expect('P10', rp.fn, 'forward path rebuilds the bitmap from the old bitmap and the distance', ok or any(rp.calls(RX + '::insert')),
+                 'bitmap <= f(old bitmap, udiff)', 'no forward-path bitmap update derives from the old bitmap and udiff')
+        # every forward path that advances max_ctr also updates the bitmap
+        fwd_adv = [i for (i, j, s) in adv if i not in prims.reach(rp, (0,), cut_edges=te)]
+        R.floor('forward max_ctr write', len(fwd_adv), 1)
+        upd = {i for (i, s) in fwd_writes} | {t.bb for t in rp.calls(RX + '::insert')}
+        bad = prims.always_followed_by(rp, fwd_adv, upd)
+        R.expect('P3', rp.fn, 'advancing max_ctr is always followed by a bitmap update', not bad, 'every path updates the bitmap', f'path from {bad} returns without touching the bitmap')
 
 
 def _locals_of(prims, body, operand):
